@@ -15,6 +15,7 @@ import (
 )
 
 type Env struct {
+	loopEntry map[int]*State
 	fc     *FnCtx
 	pkg    *packages.Package
 	tpkg   *types.Package
@@ -420,6 +421,8 @@ func (env *Env) binary(e *EBinary) TV {
 	x, y := env.tr(e.X), env.tr(e.Y)
 	x, y = env.unify(x, y)
 	switch e.Op {
+	case "===":
+		return TV{fmt.Sprintf("(= %s %s)", x.T, y.T), "Bool", B}
 	case "==", "!=":
 		var t string
 		if strings.HasPrefix(x.Sort, "Seq_") {
@@ -428,7 +431,7 @@ func (env *Env) binary(e *EBinary) TV {
 			} else if y.T == "empty_"+y.Sort && isNilExpr(e.Y) {
 				t = fmt.Sprintf("(isnil_%s %s)", x.Sort, x.T)
 			} else {
-				t = fmt.Sprintf("(eq_%s %s %s)", x.Sort, x.T, y.T)
+				t = fmt.Sprintf("(or (= %s %s) (eq_%s %s %s))", x.T, y.T, x.Sort, x.T, y.T)
 			}
 		} else {
 			t = fmt.Sprintf("(= %s %s)", x.T, y.T)
